@@ -209,3 +209,15 @@ PROPS["C05"] = dict(
                   "the key constructors VerifyingKey.from_string/from_der/from_pem and SigningKey.from_* are applied by contract (C08/C09/C10): they return a validated key or raise a documented error"],
     explanation="every ECDH method is executed from the real AST: refusal conditions, InvalidSharedSecretError iff the product is the identity, secret = x(dA dB G), bytes = that integer left-padded to the field length, loaders keep `stored keys are on the agreed curve` and store remote keys only when built with point validation on; symmetry lemma over the contracts",
 )
+
+PROPS["C14"] = dict(
+    level="proof",
+    functions=["ecdsa.ecdsa.Signature.recover_public_keys", "ecdsa.ecdsa.Public_key.verifies", "ecdsa.keys._truncate_and_convert_digest",
+               "ecdsa.numbertheory.square_root_mod_prime", "ecdsa.numbertheory.inverse_mod"],
+    lemmas=[],
+    bounded=[_B("ecdsa.ecdsa.Signature.recover_public_keys", "toy curves of prime order over F_p, p <= 13 (quick) / 23 (thorough): all d, k in [1, n-1] x all e in [0, n+1] with x(kG) < n")],
+    min_obligations=6,
+    trusted_base=["scalar mode (see C02); cofactor 1: the two curve points with x-coordinate r are +-kG", "contract of square_root_mod_prime (C15)",
+                  "the wrappers from_public_key_recovery(_with_digest) decode with the C12 decoders, truncate with the same function as verify, and wrap with from_public_point"],
+    explanation="recover_public_keys executed from the real AST in scalar mode for a genuine signature (r = x(kG) < n, s = k^-1(e + r d)): the list has at most two keys, contains dG, and each returned key satisfies the verification rule",
+)
